@@ -360,7 +360,7 @@ def _guard(thunk):
         return False, ("e" if n in DOCUMENTED else "e!" + n)
 
 
-MULTI = ("ssl", "ext", "ff")
+MULTI = ("ssl", "ssla", "sslself", "ext", "ff")
 PYOPS = {"add": operator.add, "sub": operator.sub, "mul": operator.mul, "floordiv": operator.floordiv, "mod": operator.mod,
          "truediv": operator.truediv, "lshift": operator.lshift, "rshift": operator.rshift, "lt": operator.lt, "le": operator.le,
          "gt": operator.gt, "ge": operator.ge, "eq": operator.eq, "ne": operator.ne, "neg": operator.neg, "abs": operator.abs,
@@ -369,6 +369,41 @@ IOPS = {"add": operator.iadd, "sub": operator.isub, "mul": operator.imul, "floor
         "truediv": operator.itruediv, "lshift": operator.ilshift, "rshift": operator.irshift, "and": operator.iand, "or": operator.ior,
         "xor": operator.ixor}
 CMP = ("lt", "le", "gt", "ge", "eq", "ne")
+
+
+def _lit(s):
+    """A Python value given literally on the wire (count() arguments): f<float64 bits> i<int> b0|b1 s<str> y<bytes hex>
+    Y<bytearray hex>."""
+    k, r = s[0], s[1:]
+    if k == "f":
+        return struct.unpack(">d", bytes.fromhex(r))[0]
+    if k == "i":
+        return int(r)
+    if k == "b":
+        return r == "1"
+    if k == "s":
+        return r
+    if k == "y":
+        return bytes.fromhex(r)
+    if k == "Y":
+        return bytearray.fromhex(r)
+    raise ValueError(s)
+
+
+def _litstr(v):
+    if isinstance(v, bool):
+        return "b1" if v else "b0"
+    if isinstance(v, float):
+        return "f" + struct.pack(">d", v).hex()
+    if isinstance(v, int):
+        return "i%d" % v
+    if isinstance(v, str):
+        return "s" + v
+    if isinstance(v, bytearray):
+        return "Y" + bytes(v).hex()
+    if isinstance(v, bytes):
+        return "y" + v.hex()
+    raise ValueError(v)
 
 
 def _scalar(s):
@@ -470,6 +505,17 @@ def _exec_hist(f):
             elif len(g) > 5 and g[5] == "tu":
                 vs = tuple(vs)
             ok, r = _guard(lambda: a.__setitem__(slice(_opt(g[1]), _opt(g[2]), _opt(g[3])), vs)); tok = "-" if ok else r
+        elif op == "ssla":
+            d2 = dt_of(g[4]); other = _mkarr(d2, _vals(g[5]), _tr(g[6])); ob = other.data.bin
+            ok, r = _guard(lambda: a.__setitem__(slice(_opt(g[1]), _opt(g[2]), _opt(g[3])), other)); tok = "-" if ok else r
+            if other.data.bin != ob:
+                notes.append(f"step {opi}: slice assignment changed the assigned Array")
+            other.data.append("0b1")                               # a later change of the source must not show
+        elif op == "sslself":
+            ok, r = _guard(lambda: a.__setitem__(slice(_opt(g[1]), _opt(g[2]), _opt(g[3])), a)); tok = "-" if ok else r
+        elif op == "cntv":
+            pv = _lit(g[1])
+            ok, r = _guard(lambda: a.count(pv)); tok = (f"n:{r}" if type(r) is int else f"n:?{r!r}") if ok else r
         elif op == "del":
             ok, r = _guard(lambda: a.__delitem__(int(g[1]))); tok = "-" if ok else r
         elif op == "dsl":
@@ -665,6 +711,20 @@ class Ref:
     def arr(self, dt, lst):
         return f"a:{dt.key}:{wire(''.join(dt.enc(v) for v in lst))}"
 
+    def pyitems(self):
+        """The items as the Python objects tolist() must give (reference decoder)."""
+        dt = self.dt
+        if dt.kind != "raw":
+            return [bool(x) for x in self.lst] if dt.name == "bool" else list(self.lst)
+        return [dt.bits_to_py(x[1:]) for x in self.lst]
+
+    def count_py(self, pv):
+        """list.count on the decoded items; count(nan) is documented to count the NaN items."""
+        items = self.pyitems()
+        if isinstance(pv, float) and pv != pv:
+            return sum(1 for x in items if isinstance(x, float) and x != x)
+        return sum(1 for x in items if x == pv)
+
     def other(self, dts, vals, tr):
         d2 = dt_of(dts)
         o = Ref(d2, "L:" + vals, _tr(tr))
@@ -708,6 +768,32 @@ class Ref:
             except (Bad, ValueError):
                 raise Stop("e")
             return "-"
+        if op in ("ssla", "sslself"):
+            # the right-hand side is an Array: what is assigned are its ITEMS (python values), each of which must fit
+            if _opt(g[3]) == 0:
+                raise Stop("e")
+            if op == "sslself":
+                vs = list(lst)
+                if _opt(g[3]) not in (None, 1) and len(lst) >= 2 and \
+                        len(range(*slice(_opt(g[1]), _opt(g[2]), _opt(g[3])).indices(len(lst)))) == len(lst):
+                    self.flags.append("setslice_self_extended")
+            else:
+                d2, o2 = self.other(g[4], g[5], g[6])
+                vs = list(o2.lst)
+                if d2.key != dt.key and not (d2.kind != "raw" and dt.kind != "raw"):
+                    return None                 # str / float items into another dtype: not claimed by this harness
+            try:
+                for v in vs:
+                    dt.enc(v)
+                lst[slice(_opt(g[1]), _opt(g[2]), _opt(g[3]))] = vs
+            except (Bad, ValueError):
+                raise Stop("e")
+            return "-"
+        if op == "cntv":
+            pv = _lit(g[1])
+            if isinstance(pv, float) and pv != pv and dt.rt == "other" and lst:
+                self.flags.append("count_nan_nonnumeric")
+            return f"n:{self.count_py(pv)}"
         if op == "del":
             try:
                 del lst[int(g[1])]
@@ -994,7 +1080,22 @@ def oracle(line, out, extra):
     return None
 
 
-REGIONS = {}
+def _flagged(name):
+    def pred(line):
+        f = line.split(SEP)
+        if f[1] != "hist":
+            return False
+        try:
+            _t, _v, flags, _c = _run_ref(f)
+        except Exception:                                          # noqa: BLE001
+            return False
+        return name in flags
+    return pred
+
+
+# region of the known finding (same name as the Bool predicate in Model/C14.lean)
+REGIONS = {"setslice_self_extended": _flagged("setslice_self_extended"),
+           "count_nan_nonnumeric": _flagged("count_nan_nonnumeric")}
 
 
 def nontrivial(line):
@@ -1125,6 +1226,13 @@ def random_op(ref, rng, allow_bad=True):
             if dt.rt == "float" and int(x[2:] or "0", 2) == 0:
                 return "list"
             return f"cnt:{_vstr(x)}"
+    if r < 0.875:
+        # slice assignment from an Array of the same dtype (its trailing bits must not come along) or from itself
+        a, b, c = _slice_args(rng, n)
+        if rng.random() < 0.3:
+            return f"sslself:{sv(a)}:{sv(b)}:{sv(c if c in (None, 1) else None)}"
+        k = len(range(*slice(a, b, c).indices(n))) if c not in (None, 1) else rng.choice([0, 1, 2, 3])
+        return f"ssla:{sv(a)}:{sv(b)}:{sv(c)}:{dt.s}:{_vsstr(rvals(dt, rng, k))}:{sv(None if rng.random() < 0.4 else wire(rtrail(dt, rng, 1.0) or ''))}"
     if r < 0.89:
         return rng.choice(["list", "iter", "copy", "tobytes"])
     if r < 0.92:
@@ -1494,3 +1602,131 @@ def gen(rng, tier):
             vb = list(va)
             vb[rng.randrange(n)] = rvalue(da, rng)
             yield hist(da, va, None, [f"aop:eq:{da.s}:{_vsstr(vb)}:None", f"aop:ne:{da.s}:{_vsstr(vb)}:None", f"eql:eq:{_vsstr(vb)}"])
+    # ---------------------------------------------------------------- 10. count(value) with Python values given literally:
+    # equal-but-differently-encoded and unequal-but-same-encoding-after-rounding arguments against list.count on the items
+    def cnt_line(dt, pys, lits, trail=None, wirevals=None):
+        """pys: python floats/ints/... to store (skipped when not representable); lits: python values to count."""
+        vals = list(wirevals) if wirevals is not None else []
+        for x in ([] if wirevals is not None else pys):
+            try:
+                if dt.kind != "raw":
+                    dt.enc(int(x)); vals.append(int(x))
+                elif dt.rt == "float":
+                    b = dt.float_bits(float(x))
+                    if dt.canonical(b) or x != x:
+                        vals.append("#" + b)
+                else:
+                    vals.append(x)
+            except (Bad, KeyError, OverflowError, struct.error, ValueError):
+                pass
+        ref = Ref(dt, "L:" + _vsstr(vals), trail)
+        items = ref.pyitems()
+        ops = []
+        for pv in lits:
+            if isinstance(pv, str) and (not pv.isascii() or not pv.isprintable() or any(ch in pv for ch in ":,")):
+                continue                                            # (would not survive the line format)
+            if isinstance(pv, float) and pv != pv:
+                st = [w for w, x in zip(ref.lst, items) if isinstance(x, float) and x != x]
+                mode = "n"
+            else:
+                st = [w for w, x in zip(ref.lst, items) if x == pv]
+                mode = "v"
+            ops.append(f"cntv:{_litstr(pv)}:{mode}:{_vsstr(list(dict.fromkeys(st)))}")
+        return hist(dt, vals, trail, ops)
+
+    def near(fmt, x):
+        return struct.unpack(fmt, struct.pack(fmt, x))[0]
+
+    nan, inf = math.nan, math.inf
+    flits = [0.0, -0.0, 0, 1, 1.0, True, False, 0.1, 1.5, -2, -2.0, nan, inf, -inf, 2 ** 70, "1.0", b"\x00", 0.5, 3, 1e-3, 65504.0, 1 / 3]
+    for tok in ["float16", "float32", "float64", "floatle16", "floatle32", "floatne64", "floatbe32", "bfloat", "bfloatle", ">e", "<f", "=d"] + list(SMALL):
+        dt = D(tok)
+        extra = []
+        if dt.name in ("float", "floatle") and dt.w in (16, 32):
+            fmt = ">e" if dt.w == 16 else ">f"
+            extra = [near(fmt, 0.1), near(fmt, 1 / 3), near(fmt, 1e-3)]
+        pys = [0.0, -0.0, 1.0, 1.5, -2.0, 0.5, 3.0, inf, -inf] + extra + ([nan] if dt.name in ("float", "floatle") else [])
+        rng.shuffle(pys)
+        yield cnt_line(dt, pys, flits + extra)
+        yield cnt_line(dt, pys[:4] + pys[:2], rng.sample(flits + extra, 8), rtrail(dt, rng, 1.0))
+    for tok in ["u1", "u2", "u8", "i8", "u16", "i16", "<H", ">h", "intle24", "i64", "u65", "bool", "i1"]:
+        dt = D(tok)
+        hi = (1 << dt.w) - 1 if not dt.signed else (1 << (dt.w - 1)) - 1
+        lo = 0 if not dt.signed else -(1 << (dt.w - 1))
+        pys = [0, 1, 1, 2, hi, lo, -1, 3]
+        lits = [0, 1, 1.0, 1.5, True, False, -0.0, 0.0, nan, 2.0, 2, "1", hi + 1, lo - 1, -1, -1.0, 2 ** 70, float(hi) if hi < 2 ** 53 else 3.0, b"\x01", 0.999]
+        yield cnt_line(dt, pys, lits)
+        yield cnt_line(dt, pys[:5], rng.sample(lits, 8), rtrail(dt, rng, 1.0))
+    for tok in ["hex4", "hex8", "hex12", "bin1", "bin3", "bin8", "oct3", "oct6"]:
+        dt = D(tok)
+        vals = rvals(dt, rng, 4) + ["#" + ("1010" * 3 + "10")[:dt.w]]
+        vals = vals + vals[:1]
+        ref = Ref(dt, "L:" + _vsstr(vals), None)
+        strs = ref.pyitems()
+        pre = {"hex": "0x", "bin": "0b", "oct": "0o"}[dt.name]
+        lits = []
+        for x in dict.fromkeys(strs):
+            lits += [x, x.upper(), pre + x, x.capitalize(), int(x, {"hex": 16, "bin": 2, "oct": 8}[dt.name]), x + "0", x[:-1] + ("" if len(x) > 1 else "0")]
+        lits += [1.0, b"ab", True, ""]
+        yield cnt_line(dt, None, [nan], None, vals)                  # (known finding count-nan-nonnumeric: own line)
+        yield cnt_line(dt, None, lits[:24], None, vals)
+        yield cnt_line(dt, None, rng.sample(lits, min(8, len(lits))), rtrail(dt, rng, 1.0), vals)
+    for tok in [t for t in BYTES_TOKENS if D(t).w]:
+        dt = D(tok)
+        vals = rvals(dt, rng, 4)
+        vals = vals + vals[:2]
+        ref = Ref(dt, "L:" + _vsstr(vals), None)
+        bs_ = ref.pyitems()
+        lits = []
+        for x in dict.fromkeys(bs_):
+            lits += [x, bytearray(x), x.decode("latin1"), x + b"x", x[:-1], int.from_bytes(x, "big"), x.upper(), x.swapcase()]
+        lits += [1.0, 0, b""]
+        yield cnt_line(dt, None, [nan], None, vals)
+        yield cnt_line(dt, None, lits[:24], None, vals)
+        yield cnt_line(dt, None, rng.sample(lits, 8), rtrail(dt, rng, 1.0), vals)
+    # ---------------------------------------------------------------- 11. slice assignment whose right-hand side is an Array / the Array itself
+    same_key = {}
+    for t in UNIT_TOKENS:
+        same_key.setdefault(D(t).key, []).append(t)
+    int_toks = ["u3", "u8", "i5", "i8", "u16", "bool", "<H", ">b", "u1"]
+    rhs_dts = ["u8", "i5", "hex4", "float16", "bytes2", "bool", ">H", "u3", "bin3", "<h", "bytes1", "float32", "oct6", "e4m3mxfp", "intle24", "u17"]
+    cyc2 = itertools.cycle(rhs_dts)
+    for n in range(0, (6 if big else 5)):
+        bnds = [None, 0, 1, -1, n, -n, n - 1, n + 1] if not big else [None] + list(range(-(n + 1), n + 2))
+        for a in dict.fromkeys(bnds):
+            for b in dict.fromkeys(bnds):
+                for c in [None, 1, -1, 2, -2, 3]:
+                    dt = D(next(cyc2))
+                    vals = rvals(dt, rng, n)
+                    tr = rtrail(dt, rng, 0.4)
+                    sl = len(range(*slice(a, b, c).indices(n)))
+                    k = sl if c not in (None, 1) else rng.choice([0, 1, 2, 3, sl])
+                    if c not in (None, 1) and rng.random() < 0.08:
+                        k += 1
+                    v = rng.random()
+                    if v < 0.45:                                  # same dtype, WITH trailing bits in the source
+                        src = D(rng.choice(same_key[dt.key]))
+                        t2 = rtrail(src, rng, 1.0) or ("" if src.w == 1 else "1")
+                        yield hist(dt, vals, tr, [f"ssla:{sv(a)}:{sv(b)}:{sv(c)}:{src.s}:{_vsstr(rvals(src, rng, k))}:{sv(wire(t2) if t2 else None)}", "list"])
+                    elif v < 0.6:                                 # same dtype, no trailing bits
+                        src = D(rng.choice(same_key[dt.key]))
+                        yield hist(dt, vals, tr, [f"ssla:{sv(a)}:{sv(b)}:{sv(c)}:{src.s}:{_vsstr(rvals(src, rng, k))}:None", "list"])
+                    elif v < 0.8:                                 # the Array itself
+                        yield hist(dt, vals, tr, [f"sslself:{sv(a)}:{sv(b)}:{sv(c)}", "list"])
+                    else:                                         # an Array of another (integer) dtype, with / without trailing bits
+                        da, src = D(rng.choice(int_toks)), D(rng.choice(int_toks))
+                        va = rvals(da, rng, n)
+                        small = [rng.randint(0, 1) for _ in range(k)] if rng.random() < 0.6 else rvals(src, rng, k)
+                        try:
+                            for x in small:
+                                src.enc(x)
+                        except Bad:
+                            small = [0] * k
+                        t2 = rtrail(src, rng, 0.5)
+                        yield hist(da, va, rtrail(da, rng, 0.4), [f"ssla:{sv(a)}:{sv(b)}:{sv(c)}:{src.s}:{_vsstr(small)}:{sv(wire(t2) if t2 else None)}", "list"])
+    # the owner's example and its neighbours
+    u8 = D("u8")
+    for t2 in ("111", "1", "1010101", None):
+        for (a, b) in ((1, 3), (0, 0), (None, None), (4, None), (-1, None), (2, 1)):
+            yield hist(u8, [1, 2, 3, 4], None, [f"ssla:{sv(a)}:{sv(b)}:None:{D('uint8').s if 'uint8' in DT_STR else u8.s}:9,8:{sv(t2)}", "list", "len"])
+            yield hist(u8, [1, 2, 3, 4], "101", [f"ssla:{sv(a)}:{sv(b)}:1:{u8.s}:9,8,7:{sv(t2)}", "list"])
